@@ -440,7 +440,7 @@ Qed.
 Lemma exec_action_effect cfg s a : forall c ss c' ss' o,
   exec_action cfg s c ss a = (c', ss', o) -> exists l, line_effect ss ss' l.
 Proof.
-  induction a as [p d|p ro|p|p|k v|sub keep|id bad|h neg| | | | | | | | |neg prog a IH]; intros c ss c' ss' o H;
+  induction a as [p d|p ro|p|p|k v|sub keep|id bad|h neg| | | | | | | | |xneg xprog|neg prog a IH]; intros c ss c' ss' o H;
     cbn [exec_action] in H.
   - destruct (write_file _ _ _ _); injection H as <- <- <-; exists []; [now apply line_effect_same | apply line_effect_refl].
   - destruct (mkdir_all _ _ _); injection H as <- <- <-; exists []; [now apply line_effect_same | apply line_effect_refl].
@@ -514,6 +514,7 @@ Proof.
       now apply gone_of_signalled.
     + intros h Hh. now left.
     + intros h Hh. now left.
+  - destruct (look _ _ _ _ _); injection H as <- <- <-; exists []; apply line_effect_refl.
   - destruct (cached_look cfg s c ss prog) as [ans c1] eqn:E.
     destruct (Bool.eqb ans (negb neg)).
     + destruct (IH _ _ _ _ _ H) as [l Hl]. exists (EvCond prog ans :: l). now apply line_effect_cond.
@@ -990,7 +991,7 @@ Qed.
 Lemma exec_action_env_ok cfg s a : forall c ss c' ss' o,
   exec_action cfg s c ss a = (c', ss', o) -> env_ok s (senv ss) -> env_ok s (senv ss').
 Proof.
-  induction a as [p d|p ro|p|p|k v|sub keep|id bad|h neg| | | | | | | | |neg prog a IH]; intros c ss c' ss' o H E;
+  induction a as [p d|p ro|p|p|k v|sub keep|id bad|h neg| | | | | | | | |xneg xprog|neg prog a IH]; intros c ss c' ss' o H E;
     cbn [exec_action] in H.
   - destruct (write_file _ _ _ _); injection H as <- <- <-; exact E.
   - destruct (mkdir_all _ _ _); injection H as <- <- <-; exact E.
@@ -1009,6 +1010,7 @@ Proof.
   - injection H as <- <- <-. exact E.
   - destruct (skip_wait (bgl ss)) as [waited ok]. destruct ok; injection H as <- <- <-; exact E.
   - destruct (wait_list _ _) as [waited res]. destruct res; injection H as <- <- <-; exact E.
+  - destruct (look _ _ _ _ _); injection H as <- <- <-; exact E.
   - destruct (cached_look cfg s c ss prog) as [ans c1]. destruct (Bool.eqb ans (negb neg)).
     + eapply IH; eauto.
     + injection H as <- <- <-. exact E.
@@ -1035,9 +1037,9 @@ Lemma exec_action_sim cfg s a : key_by_path cfg = true ->
   exec_action cfg s cb ss a = (cb', ssb, ob) -> exec_action cfg s ca ss a = (ca', ssa, oa) ->
   ssb = ssa /\ ob = oa /\ Rel cfg s cb' ca' /\ Glob cfg cb' /\ frame_others cfg s cb cb'.
 Proof.
-  intro Hk. induction a as [p d|p ro|p|p|k v|sub keep|id bad|h neg| | | | | | | | |neg prog a IH];
+  intro Hk. induction a as [p d|p ro|p|p|k v|sub keep|id bad|h neg| | | | | | | | |xneg xprog|neg prog a IH];
     intros cb ca ss cb' ssb ob ca' ssa oa R G E Hb Ha.
-  17: {
+  18: {
     cbn [exec_action] in Hb, Ha.
     destruct (cached_look cfg s cb ss prog) as [vb cb1] eqn:Eb.
     destruct (cached_look cfg s ca ss prog) as [va ca1] eqn:Ea.
@@ -1316,7 +1318,7 @@ Qed.
 (* a script without a bare `wait` never gets stuck *)
 Lemma exec_action_not_stuck cfg s a : has_wait a = false -> forall c ss, snd (exec_action cfg s c ss a) <> OStuck.
 Proof.
-  induction a as [p d|p ro|p|p|k v|sub keep|id bad|h neg| | | | | | | | |neg prog a IH]; intros Hw c ss;
+  induction a as [p d|p ro|p|p|k v|sub keep|id bad|h neg| | | | | | | | |xneg xprog|neg prog a IH]; intros Hw c ss;
     cbn [exec_action has_wait] in *; try discriminate;
     repeat match goal with
            | |- context [match ?x with _ => _ end] => destruct x
@@ -1364,6 +1366,19 @@ Proof.
   - cbn. eapply nth_error_map_const_some; eauto.
   - discriminate.
 Qed.
+
+(* a script that has replaced its PATH by a directory of its own cannot run (or see through [exec:...])
+   any program of the host: the answer is a matter of its own files only, whatever the host's PATH and
+   whatever is installed there *)
+Lemma narrowed_path_hides_host cfg cfg' s t sub prog :
+  look cfg s t (VOwnPath s sub None) prog = is_exec t (sub ++ [prog]) /\
+  look cfg s t (VOwnPath s sub None) prog = look cfg' s t (VOwnPath s sub None) prog.
+Proof. cbn [look]. rewrite Nat.eqb_refl, !orb_false_r. cbn. split; reflexivity. Qed.
+
+Lemma exec_outcome cfg s c ss neg prog :
+  exec_action cfg s c ss (AExec neg prog)
+  = (c, ss, if Bool.eqb (look cfg s (tr ss) (path_value (senv ss)) prog) neg then OFail else OCont).
+Proof. cbn [exec_action]. destruct (look _ _ _ _ _), neg; reflexivity. Qed.
 
 (* ------------------------------------------------------------------ the statements of Properties/C04.v *)
 
